@@ -279,6 +279,45 @@ def discharge(run, obligations: dict, *, engine="symtrace", functions=(), worker
 
 
 # ------------------------------------------------------------------------------- helpers
+class ObjectNP:
+    """module-level `np` for step functions that build arrays with a float/complex dtype and then store symbolic entries
+    into them: same namespace as the verification connector's `np`, but the constructors return object arrays (exact
+    entries of general type) - the dtype of a container is a property of the leaf library, not of the code under proof"""
+
+    def __init__(self, base):
+        self._base = base
+
+    def __getattr__(self, name):
+        return getattr(self._base, name)
+
+    def identity(self, n, dtype=None):
+        return np.identity(n, dtype=object).view(SymArray)
+
+    def zeros(self, shape, dtype=None, **k):
+        return np.zeros(shape, dtype=object).view(SymArray)
+
+    def zeros_like(self, a, dtype=None, **k):
+        return np.zeros(np.shape(a), dtype=object).view(SymArray)
+
+    def ix_(self, *a):
+        return np.ix_(*a)
+
+
+class patched_np:
+    """with patched_np(module, env): the module's global `np` is the symbolic-aware namespace (symbolic runs only)"""
+
+    def __init__(self, module, env):
+        self.module, self.env = module, env
+
+    def __enter__(self):
+        self.saved = self.module.np
+        if self.env.symbolic:
+            self.module.np = ObjectNP(self.env.np)
+
+    def __exit__(self, *a):
+        self.module.np = self.saved
+
+
 def embed(np_, d, modes, block, identity=True):
     """d x d matrix acting as `block` on the ordered tuple `modes`, identity (or 0) elsewhere."""
     out = np.empty((d, d), dtype=object)
